@@ -1270,7 +1270,7 @@ fn gen_shapes(fix: &Fix, tier: &str, seed: u64, out_dir: &str) {
         }
     }
     write_out(out_dir, "c13.rs", &isrc);
-    crate::gen_harness::emit_wrappers(&all, out_dir);
+    crate::gen_harness::emit_wrappers(&all, out_dir, tier);
     // info for the evidence file
     let mut info = String::from("{");
     let _ = write!(info, "\"programs\": {}, \"shapes_enumerated\": {{", all.len());
